@@ -973,3 +973,20 @@ class PathEnum:
 
 def paths(fn: Fn, is_event: Callable[[ast.AST], Optional[str]], may_raise=None, inline_depth: int = 0) -> List[Path]:
     return PathEnum(fn, is_event, may_raise, inline_depth).run()
+
+
+
+def returned_expr(fn: Fn, e: Optional[ast.AST]) -> Optional[ast.AST]:
+    """If `e` is a call of a value helper that the confirmed tree does not have (see _Walker._helper_of) and whose whole body is
+    `return <expression>`, that expression with the helper's parameters bound to the arguments; otherwise `e` itself.  `x = EventLoop(...)`
+    and `x = self._new_loop()` with `def _new_loop(self): return EventLoop(...)` are the same definition of x."""
+    if not isinstance(e, ast.Call):
+        return e
+    w = _Walker(fn)
+    h = w._helper_of(e)
+    if h is None:
+        return e
+    body = [b for b in w._bind_args(h, e) if not (isinstance(b, ast.Expr) and isinstance(b.value, ast.Constant))]
+    if len(body) == 1 and isinstance(body[0], ast.Return) and body[0].value is not None:
+        return body[0].value
+    return e
